@@ -327,10 +327,14 @@ class C04(Check):
         return [rng.randrange(4) for _ in range(rng.randint(2, 4))]
 
     def gen_solve(self, rng):
+        rule = rng.randrange(6)
+        # the direct rules work on Python ints: durations next to 2^24 / 2^53 must be ranked exactly (the
+        # observer-based rule reads float32 features and is kept to small durations, see `assumptions`)
         spec = common.gen_instance(rng, max_jobs=5, max_machines=4, max_ops=4,
-                                   allow_empty_jobs=rng.random() < 0.1, big=rng.random() < 0.15)
+                                   allow_empty_jobs=rng.random() < 0.1, big=rng.random() < 0.15,
+                                   huge=rule < 4 and rng.random() < 0.3, p_all_huge=0.5)
         t0 = rng.randint(0, 1000)
-        return {"kind": "solve", "spec": spec, "rule": rng.randrange(6), "chooser": rng.randrange(2),
+        return {"kind": "solve", "spec": spec, "rule": rule, "chooser": rng.randrange(2),
                 "filters": self.gen_filters(rng), "seed": rng.randrange(10 ** 6),
                 "clock": [t0, t0 + rng.choice([0, 1, 7, rng.randint(0, 10 ** 6)])]}
 
